@@ -176,6 +176,9 @@ def api_streams(seed, tier):
             for index in range(min(ntotal, 3)):
                 for k, r in enumerate((bits(0.0), bits(1.0), R_SQRT2, bits(3.0))):
                     cases.append(nbr_case((ntotal + ndim + k) % 2, ntotal, ndim, 2, index, r))
+    for (ntotal, ndim) in ((64, 16), (31, 16), (32, 16), (600, 8), (511, 8), (512, 8), (200, 10), (169, 10), (1024, 10), (2187, 7), (3000, 9), (100, 20), (70, 40)):
+        for index in (0, ntotal - 1):
+            cases.append(nbr_case((ntotal + index) % 2, ntotal, ndim, 2, index, bits(1.0)))
     nrand = {"quick": 100, "thorough": 1500, "search": 1500}[tier]
     for k in range(nrand):
         ntotal = rng.choice([rng.randrange(1, 3000), rng.randrange(1, 300), rng.choice([e ** d for d in (2, 3, 4, 5) for e in range(2, 12) if e ** d < 3000])])
